@@ -214,7 +214,10 @@ def strategy(tier):
                   st.lists(op, max_size=12),
                   st.lists(st.sampled_from([0.0, 0.0, 0.0, 0.15, 0.4, 1.0]), max_size=10), suspend_maps(), raise_map)
     from . import c09
-    b = st.builds(lambda c, sm: dict(c, k="B", suspend_map=sm), c09.strategy(tier), suspend_maps())
+    # layer B only: the event loop may report the connection's socket as lost at some instant (a later reset must still be complete)
+    lost = st.one_of(st.none(), st.none(), st.floats(6.0, 60.0).map(lambda x: round(x, 1)))
+    b = st.builds(lambda c, sm, lo: dict(c, k="B", suspend_map=sm, actions=sorted(c["actions"] + ([[lo, "socklost"], [lo + 3.0, "reset"]] if lo else []))),
+                  c09.strategy(tier), suspend_maps(), lost)
     return st.one_of(a, a, a, b)
 
 
